@@ -580,6 +580,20 @@ theorem c03_slow_simplex_unbounded_end_to_end_partial {m : Model (Ext K)} {t : K
   (c03_compile_unbounded_partial ht h hm hok hint).mp
     (simplex_linUnbounded hW hnn hdv hnd hs hT stallExtra limit prefer hunb)
 
+/-- **source infeasibility from the built-in simplex, exact arithmetic**: a phase-1 optimum below zero on the standard
+form of the compiled model means that NO assignment satisfies the source. -/
+theorem c03_slow_simplex_infeasible_end_to_end_partial {m : Model (Ext K)} {t : K} (ht : 0 ≤ t) {maxSteps : Nat}
+    {lm : LinModel (Ext K)} (h : Compile.linearize m (.fin t) maxSteps = .ok lm)
+    (hm : FragModel true m m.domain) (hok : DeclOK m.domain)
+    (hint : ∀ an, pipelineAnalyzer m (.fin t) maxSteps = some an → IntRangesInBox an m.domain)
+    (hW : WF lm) (hnn : ∀ d ∈ lm.domain, NNOK d.ty) (hdv : DomVars lm)
+    {s : StdModel (Ext K)} (hs : standardize lm = .ok s) (stallExtra limit : Nat) (prefer : List Nat)
+    (hp1 : (solve (0:K) stallExtra limit prefer (phase1Tab (stdK s))).result = .ok ())
+    (hneg : (solve (0:K) stallExtra limit prefer (phase1Tab (stdK s))).final.value < 0) :
+    ∀ ρ : String → K, srcFeasible m ρ = false :=
+  (c03_compile_infeasible_partial ht h hm hok hint).mp
+    (simplex_linInfeasible hW hnn hdv hs stallExtra limit prefer hp1 hneg)
+
 /-- non-vacuity (`K = ℚ`, every tolerance `t ≥ 0`, step limit 0): `max x s.t. c: x ≤ 2`, `x` NonNegativeReal.  Every
 hypothesis of `c03_slow_simplex_end_to_end_partial` holds JOINTLY — the pipeline returns `exMax`, its standard form is
 `exMaxStd`, `exTM` is canonical for it, the loop stops `Finished` — and the conclusion reads: `x = 2` satisfies the
